@@ -148,9 +148,9 @@ def cosine_case(sa, sb, axis, eps, seed):
 def enum_conv1d(tier):
     """the quantifier's conv1d space: batch 1..2, Cin/Cout 1..4 with every common divisor as groups, L 1..7,
     K 1..3, stride 1..3, padding 0..2, dilation 1..2, bias on/off; all combinations with positive output size.
-    quick keeps a deterministic pseudo-random 1/7 of the raw product (hash of the point index, so that different
+    quick keeps a deterministic pseudo-random 1/4 of the raw product (hash of the point index, so that different
     channel configurations keep different (L,K,s,p,d,bias) points)."""
-    step = 1 if tier == "thorough" else 7
+    step = 1 if tier == "thorough" else 4
     idx = -1
     for N, Cin, Cout in itertools.product((1, 2), range(1, 5), range(1, 5)):
         for G in divisors(Cin):
@@ -201,8 +201,8 @@ def enum_conv2d(tier):
 
 
 def enum_pool(tier):
-    """H,W 1..7 x kernel 1..min(3,extent) x stride 1..3 per axis x ceil_mode x {max,avg}; quick: every 5th point"""
-    step = 1 if tier == "thorough" else 5
+    """H,W 1..7 x kernel 1..min(3,extent) x stride 1..3 per axis x ceil_mode x {max,avg}; quick: every 3rd point"""
+    step = 1 if tier == "thorough" else 3
     axis = [(n, k, s) for n in range(1, 8) for k in range(1, min(3, n) + 1) for s in (1, 2, 3)]
     prefixes = [(), (2,), (1, 2)]
     idx = -1
@@ -223,8 +223,8 @@ def enum_softmax(tier):
             for op in ("softmax", "softmin"):
                 for dt in ("f64", "i32"):
                     idx += 1
-                    # quick: integer input on every 3rd point; dim-4 sources (0.05 s each under ASan) on every 3rd point
-                    if tier != "thorough" and ((dt == "i32" and mix(idx) % 3) or (d == 4 and (mix(idx) >> 5) % 3)):
+                    # quick: integer input on every 3rd point; dim-4 sources (0.05 s each under ASan) on every 2nd point
+                    if tier != "thorough" and ((dt == "i32" and mix(idx) % 3) or (d == 4 and (mix(idx) >> 5) % 2)):
                         continue
                     yield softmax_case(op, shape, axis, idx, dt, ev=(mix(idx) % 4 == 0))
 
@@ -258,8 +258,8 @@ def enum_norms(tier):
                     for rest in small_shapes(dim - 2, dim - 2, emax):
                         for eps in EPS_CHOICES[:2]:
                             idx += 1
-                            # quick: dim-4 inputs (0.2 s each: every lazy element re-reduces its group) on every 4th point
-                            if tier != "thorough" and dim == 4 and mix(idx) % 4:
+                            # quick: dim-4 inputs (0.2 s each: every lazy element re-reduces its group) on every 2nd point
+                            if tier != "thorough" and dim == 4 and mix(idx) % 2:
                                 continue
                             yield group_norm_case([N, C] + rest, G, eps, idx)
 
@@ -402,8 +402,8 @@ class C17(Prop):
     id = "C17"
     servers = ["nn"]
     rule = ("case = one nn routine on integer-valued data, executed lazily (shape + every element; every 4th enumerated case "
-            "also through eval). conv1d: the quantifier's whole space (quick: a fixed pseudo-random 1/7 of it); conv2d: fixed-seed sample of the "
-            "product space; pooling: H,W 1..7 x kernel 1..3 x stride 1..3 x ceil_mode (quick: every 5th point); softmax/softmin: "
+            "also through eval). conv1d: the quantifier's whole space (quick: a fixed pseudo-random 1/4 of it); conv2d: fixed-seed sample of the "
+            "product space; pooling: H,W 1..7 x kernel 1..3 x stride 1..3 x ceil_mode (quick: every 3rd point); softmax/softmin: "
             "dims 1..4 x every axis; norms on dim 2..4 inputs; linear/bilinear/pairwise_distance/cosine_similarity. "
             "non-trivial: conv/pool = at least two of {stride>1, padding>0, dilation>1, groups>1, ceil-mode overhang}; softmax = "
             "axis extent > 1; norms = more than one element per statistic; linear-like = more than one input feature. "
@@ -423,7 +423,7 @@ class C17(Prop):
                 "pool2d H,W1..7 x k1..3 x s1..3 x ceil x {max,avg} (%s); softmax/softmin dims1..3 ext1..%d + dim4 ext1..3, all axes; norms dim2..4 ext1..3; "
                 "linear/bilinear/pairwise_distance/cosine_similarity small shapes%s"
                 % (("all points", "all points", 4, "") if tier == "thorough" else
-                   ("a fixed 1/7 of the points", "every 5th point", 3, " (quick: distances every 2nd point, dim-4 softmax every 3rd, dim-4 group_norm every 4th)")))
+                   ("a fixed 1/4 of the points", "every 3rd point", 3, " (quick: dim-4 softmax and dim-4 group_norm every 2nd point)")))
 
     def exhaustive(self, tier):
         def thin(g, k):
@@ -432,7 +432,7 @@ class C17(Prop):
                 if tier == "thorough" or mix(i) % k == 0:
                     yield c
         gens = [enum_conv1d(tier), enum_conv2d(tier), enum_pool(tier), enum_softmax(tier), enum_norms(tier),
-                enum_linear(tier), thin(enum_dist(tier), 2)]
+                enum_linear(tier), enum_dist(tier)]
         # interleave so that every chunk mixes cheap and expensive cases
         live = list(gens)
         while live:
@@ -447,7 +447,7 @@ class C17(Prop):
 
     # ---- random ----------------------------------------------------------
     def n_random(self, tier):
-        return 2800 if tier == "quick" else 120000
+        return 5600 if tier == "quick" else 120000
 
     def strategy(self, tier):
         class Draw:
